@@ -1,8 +1,15 @@
 """C08: integrate() time / step-size / status contract (rebound.c: reb_check_exit, reb_simulation_integrate[_raw]).
 
-R-mode (doubles as reals).  reb_simulation_step is replaced by a STEP CONTRACT per integrator class; the contract is
-proved on the real part1/part2 in the tasks `stepcontract.*`; the frame "nothing else in reb_simulation_step writes
-t / dt / dt_last_done" is computed from the AST of the whole library (engine.frames write summaries).
+R-mode (doubles as reals).  reb_simulation_step is replaced by a STEP CONTRACT per integrator class
+
+   fixed   :  t' = t + dt,  dt' = dt,  dt_last_done' = dt   (JANUS: dt_last_done' = dt_last_done -- it never sets it)
+   adaptive:  t' = t + delta, delta = 0 or sign(delta) = sign(dt), |delta| <= |dt|, sign(dt') = sign(dt),
+              dt_last_done' = delta when delta != 0
+
+`stepcontract.*` prove the fixed contract on the real part1/part2 (+ the write frame of everything else that
+reb_simulation_step calls, computed from the AST of the whole library).  The core tasks execute the REAL
+reb_check_exit (loop free once status is not PAUSED/SCREENSHOT) and the REAL loop of reb_simulation_integrate_raw
+under loop invariants.
 """
 import ast as pyast
 import os
@@ -15,14 +22,31 @@ from engine import cfront
 FILES = ["src/rebound.c", "src/integrator.c", "src/integrator_leapfrog.c", "src/integrator_sei.c"]
 P = Pack("C08", FILES, "integrate(): time, step size, status")
 PACKS = [P]
+P.assume("machine arithmetic treated as mathematical (doubles as reals): 'lands exactly on tmax' is exact in R; the "
+         "floating-point coincidence (t+dt) vs tmax is what the code's 1e-12 tolerance is for (not decided here)")
+P.assume("INFINITY is a distinguished value that no finite tmax equals; dt != 0 (dt == 0 never terminates: precondition)")
+P.assume("status on entry is not PAUSED/SCREENSHOT (their waiting loops need the visualisation thread: C19)")
+P.assume("user callbacks (heartbeat, collision resolve, pre/post_timestep_modifications, additional_forces) and a step may "
+         "change r->status only to an exit status 1..7 (reb_simulation_stop -> USER, halting collision -> COLLISION, "
+         "heartbeat distance checks -> ESCAPE/ENCOUNTER) and may change N; they do not write t, dt, dt_last_done, "
+         "exact_finish_time (frame of the library code itself: task stepcontract.frame)")
+P.assume("reb_simulation_error_message_waiting is modelled as an arbitrary 0/1 answer per call (errors may be queued during "
+         "a step); task check_exit.error_waiting.* relate it to r->messages")
+P.trust("adaptive step contract (IAS15, BS, TRACE/MERCURIUS encounter sub-steps) is stated, not proved on their part2")
+P.not_decided += [
+    "floating-point coincidences (t+dt) vs tmax and the size of the rounding error of the last step (R-mode)",
+    "termination of the loop for adaptive integrators (Zeno sequences of shrinking steps)",
+    "PAUSED / SCREENSHOT / SINGLE_STEP waiting loops of reb_check_exit (need a second thread; C19)",
+    "adaptive step contract on the real IAS15 / BS / TRACE / MERCURIUS part2 (stated as trusted contract)",
+    "MERCURIUS, TRACE, EOS, WHFAST512 fixed-step contract on their real part2 (MERCURIUS/TRACE temporarily overwrite r->dt and "
+    "r->t in the encounter step and restore them: needs their sub-step loops under invariants)",
+    "bitwise equality of split integrations beyond: same number of steps, same dt value, prologue/epilogue frame "
+    "(the step map itself is a deterministic function of the state: C02/C09)",
+]
 
 RUNNING, LAST_STEP, SUCCESS = "REB_STATUS_RUNNING", "REB_STATUS_LAST_STEP", "REB_STATUS_SUCCESS"
-CHECK, RAW, INTEGRATE = "reb_check_exit", "reb_simulation_integrate_raw", "reb_simulation_integrate"
-
-
-def sgn_is(x, s):
-    """x has the sign s (s = +1 / -1 python int)"""
-    return x > 0 if s > 0 else x < 0
+CHECK, RAW, INTEGRATE, STEP = "reb_check_exit", "reb_simulation_integrate_raw", "reb_simulation_integrate", "reb_simulation_step"
+ERRW = "reb_simulation_error_message_waiting"
 
 
 def absr(x):
@@ -33,10 +57,13 @@ class S:
     pass
 
 
+from fractions import Fraction
+E12 = z3.RealVal(Fraction(1e-12))       # the double literals of the code (exact binary values)
+E200 = z3.RealVal(Fraction(1e-200))
 INF = z3.Real("INFINITY")      # R-mode stand-in for the macro INFINITY: a distinguished value no finite tmax equals
 
 
-def mk(v, integrator=None, messages_null=True, callbacks_null=True):
+def mk(v, integrator=None):
     """symbolic simulation for reb_check_exit / integrate_raw"""
     s = S()
     s.v = v
@@ -51,32 +78,920 @@ def mk(v, integrator=None, messages_null=True, callbacks_null=True):
     r.steps_done = s.steps0
     s.N_odes = v.int("N_odes")
     r.N_odes = s.N_odes
+    s.integ = v.int("integrator")
+    r.integrator = s.integ if integrator is None else v.enumc(integrator)
     v.assume(s.N >= 0, s.N_odes >= 0)
-    if integrator is not None:
-        r.integrator = v.enumc(integrator)
-    if messages_null:
-        r.messages = NULL
-    if callbacks_null:
-        r.heartbeat = NULL
     r.simulationarchive_filename = NULL
     r.server_data = NULL
     r.display_data = NULL
-    s.sync_calls = []
+    s.err = []
 
-    def sync(eng, st, args, n):
-        s.sync_calls.append(1)
-        return None
-    v.contract("reb_simulation_synchronize", sync)
+    def errw(eng, st, args, n):
+        e = eng.fresh("error_waiting", z3.IntSort())
+        st.assume(z3.Or(e == 0, e == 1))
+        s.err.append(e)
+        return e
+    v.contract(ERRW, errw)
+    v.contract("reb_simulation_synchronize", lambda eng, st, args, n: None)      # frame: stepcontract.frame
     v.contract("reb_simulation_warning", lambda eng, st, args, n: None)
+    v.contract("reb_particle_check_testparticles", lambda eng, st, args, n: eng.fresh("tp_warn", z3.IntSort()))
     v.contract("__builtin_inff", lambda eng, st, args, n: INF)
     v.eng.havoc_calls |= {"signal", "usleep", "pthread_mutex_lock", "pthread_mutex_unlock"}
+    s.E = lambda name: v.enumc(name)
+
+    def paused_inv(L):
+        """waiting loop of reb_check_exit: a status that is not PAUSED/SCREENSHOT is left alone; a paused one can only
+        become SIGINT (the GUI thread that un-pauses is not modelled: C19)"""
+        cur = L.eng.read(L.st, Ptr(rp.obj, ("status",)))
+        old = L.eng.read(L.entry, Ptr(rp.obj, ("status",)))
+        paused = z3.Or(old == s.E("REB_STATUS_PAUSED"), old == s.E("REB_STATUS_SCREENSHOT"))
+        return [("status_kept_unless_paused", z3.Or(cur == old, z3.And(paused, cur == s.E("REB_STATUS_SIGINT"))))]
+    v.loop(CHECK, 0, invariant=paused_inv)
     return s
 
 
-@P.task("check_exit.probe", fn=CHECK)
+def lfd_now(s):
+    """current value of the caller's last_full_dt cell (if-merging replaces memory objects: look the id up again)"""
+    return s.v.st.mem.objs[s.lfd.id].value
+
+
+def fld(s, L, name):
+    return L.eng.read(L.st, Ptr(s.rp.obj, (name,)))
+
+
+def exit_status(c):
+    return z3.And(1 <= c, c <= 7)
+
+
+def havoc_status(eng, st, rp, tag):
+    """an exit condition may have been raised: status' = status or one of the exit statuses 1..7"""
+    p = Ptr(rp.obj, rp.path + ("status",))
+    old = eng.read(st, p)
+    c = eng.fresh("status_after_" + tag, z3.IntSort())
+    st.assume(z3.Or(c == old, exit_status(c)))
+    eng.write(st, p, c)
+
+
+def heartbeat_contract(eng, st, args, n):
+    """reb_run_heartbeat: user heartbeat + distance checks (tasks heartbeat.*): only r->status is written"""
+    havoc_status(eng, st, args[0], "heartbeat")
+    return None
+
+
+def step_contract(kind, sets_dld=True):
+    def apply(eng, st, args, n):
+        rp = args[0]
+        rd = lambda f: eng.read(st, Ptr(rp.obj, rp.path + (f,)))
+        wr = lambda f, val: eng.write(st, Ptr(rp.obj, rp.path + (f,)), val)
+        t, dt, dld = rd("t"), rd("dt"), rd("dt_last_done")
+        if kind == "fixed":
+            wr("t", t + dt)
+            if sets_dld is True:
+                wr("dt_last_done", dt)
+            elif sets_dld is not False:
+                wr("dt_last_done", z3.If(sets_dld, dt, dld))
+        else:
+            d = eng.fresh("delta", z3.RealSort())
+            dn = eng.fresh("dt_new", z3.RealSort())
+            st.assume(z3.Or(d == 0, z3.And(d * dt > 0, absr(d) <= absr(dt))))
+            st.assume(dn * dt > 0)
+            wr("t", t + d)
+            wr("dt", dn)
+            wr("dt_last_done", z3.If(d != 0, d, dld))
+        wr("steps_done", rd("steps_done") + 1)
+        nn = eng.fresh("N_after_step", z3.IntSort())
+        st.assume(nn >= 0)
+        wr("N", nn)
+        havoc_status(eng, st, rp, "step")
+        g = eng.global_object(st, "reb_sigint")
+        sg = eng.fresh("sigint", z3.IntSort())
+        st.assume(sg >= 0)
+        eng.write(st, Ptr(g.id, ()), sg)
+        return None
+    return apply
+
+
+# =====================================================================================================
+# reb_check_exit: one call, case analysis
+# =====================================================================================================
+def check_setup(v, **kw):
+    s = mk(v, **kw)
+    s.lfd0 = v.real("last_full_dt")
+    s.lfd, s.lfdp = v.cell("double", "last_full_dt", s.lfd0)
+    v.assume(s.dt != 0, s.tmax != INF)
+    v.assume(z3.Or(s.status == s.E(RUNNING), s.status == s.E(LAST_STEP), z3.And(0 <= s.status, s.status <= 7)))
+    return s
+
+
+def no_particles(s, N=None):
+    N = s.N if N is None else N
+    return z3.And(N == 0, z3.Or(s.N_odes == 0, s.r.integrator != s.E("REB_INTEGRATOR_BS")))
+
+
+@P.task("check_exit.noop", fn=CHECK)
 def _(v):
+    """tmax == t on entry: returns SUCCESS (>= 0) without touching t, dt, last_full_dt -- for either value of
+    exact_finish_time, either sign of dt."""
+    s = check_setup(v)
+    v.assume(s.tmax == s.t, s.status == s.E(RUNNING), s.N > 0)
+    ret = v.call(CHECK, s.rp, s.tmax, s.lfdp)
+    v.assume(s.err[0] == 0)
+    v.prove("returns_success", ret == s.E(SUCCESS))
+    v.prove("t_unchanged", s.r.t == s.t)
+    v.prove("dt_unchanged", s.r.dt == s.dt)
+    v.prove("last_full_dt_unchanged", lfd_now(s) == s.lfd0)
+    v.prove("N_unchanged", s.r.N == s.N)
+
+
+@P.task("check_exit.direction", fn=CHECK)
+def _(v):
+    """dt points towards tmax (or t == tmax) on entry  =>  on return dt still has the same sign, t is untouched, and if
+    the call asks for another step (ret < 0) with exact_finish_time==1 then that step cannot pass tmax:
+    sign*(t + dt') <= sign*tmax."""
+    s = check_setup(v)
+    sg = z3.If(s.dt > 0, z3.RealVal(1), z3.RealVal(-1))
+    v.assume(sg * (s.tmax - s.t) >= 0)
+    ret = v.call(CHECK, s.rp, s.tmax, s.lfdp)
+    v.prove("dt_keeps_sign", s.r.dt * s.dt > 0)
+    v.prove("t_untouched", s.r.t == s.t)
+    v.prove("dt_changed_only_to_remaining_interval", z3.Or(s.r.dt == s.dt, s.r.dt == s.tmax - s.t))
+    v.prove("exact.next_step_does_not_pass_tmax", z3.Implies(z3.And(s.exact == 1, ret < 0),
+                                                             z3.Or(sg * (s.t + s.r.dt) < sg * s.tmax, s.t + s.r.dt == s.tmax)))
+    v.prove("inexact.dt_never_changed", z3.Implies(s.exact != 1, s.r.dt == s.dt))
+
+
+@P.task("check_exit.last_step", fn=CHECK)
+def _(v):
+    """exact_finish_time==1, RUNNING, the next full step would reach or pass tmax (t != tmax):
+    status := LAST_STEP, dt := tmax - t, last_full_dt := dt_last_done (unless that is 0: first step is the last).
+    After ONE fixed step (t += dt) the next call returns SUCCESS with t == tmax exactly."""
+    s = check_setup(v)
+    sg = z3.If(s.dt > 0, z3.RealVal(1), z3.RealVal(-1))
+    v.assume(s.exact == 1, s.status == s.E(RUNNING), s.N > 0, s.t != s.tmax, sg * (s.t + s.dt) >= sg * s.tmax, sg * (s.tmax - s.t) > 0)
+    ret = v.call(CHECK, s.rp, s.tmax, s.lfdp)
+    v.assume(s.err[0] == 0)
+    r = s.r
+    v.prove("asks_for_last_step", z3.And(ret == s.E(LAST_STEP), r.status == s.E(LAST_STEP)))
+    v.prove("dt_is_remaining_interval", r.dt == s.tmax - s.t)
+    v.prove("full_dt_saved", lfd_now(s) == z3.If(s.dld != 0, s.dld, s.lfd0))
+    # one fixed step (step contract), then the next check
+    r.t = r.t + r.dt
+    r.dt_last_done = r.dt
+    ret2 = v.call(CHECK, s.rp, s.tmax, s.lfdp)
+    v.assume(s.err[1] == 0)
+    v.prove("then.lands_on_tmax", r.t == s.tmax)
+    v.prove("then.success", ret2 == s.E(SUCCESS))
+    v.prove("then.saved_full_dt_kept", lfd_now(s) == z3.If(s.dld != 0, s.dld, s.lfd0))
+
+
+@P.task("check_exit.last_step_tolerance", fn=CHECK)
+def _(v):
+    """exact_finish_time==1 and status LAST_STEP (the last step has been taken, possibly shortened by an adaptive
+    integrator): SUCCESS iff |t-tmax| < 1e-12*|tmax| (absolute 1e-12 when 1e-12*|tmax| < 1e-200) or t == tmax;
+    otherwise another step with dt = tmax - t, or back to RUNNING when a full step fits again."""
+    s = check_setup(v)
+    sg = z3.If(s.dt > 0, z3.RealVal(1), z3.RealVal(-1))
+    v.assume(s.exact == 1, s.status == s.E(LAST_STEP), s.N > 0, sg * (s.tmax - s.t) >= 0)
+    ret = v.call(CHECK, s.rp, s.tmax, s.lfdp)
+    v.assume(s.err[0] == 0)
+    r = s.r
+    tol = z3.If(absr(s.tmax) * E12 < E200, E12, absr(s.tmax) * E12)
+    fits = sg * (s.t + s.dt) < sg * s.tmax
+    close = z3.Or(s.t == s.tmax, absr(s.t - s.tmax) < tol)
+    v.prove("success_iff_within_tolerance", (ret == s.E(SUCCESS)) == z3.And(z3.Not(fits), close))
+    v.prove("success_within_1e-12_relative", z3.Implies(z3.And(ret == s.E(SUCCESS), absr(s.tmax) >= z3.RealVal("1e-187")),
+                                                         absr(s.t - s.tmax) <= z3.RealVal("1e-12") * absr(s.tmax)))
+    v.prove("else_another_shortened_step", z3.Implies(z3.And(z3.Not(fits), z3.Not(close)),
+                                                      z3.And(ret == s.E(LAST_STEP), r.dt == s.tmax - s.t)))
+    v.prove("back_to_running_when_full_step_fits", z3.Implies(fits, z3.And(ret == s.E(RUNNING), r.dt == s.dt)))
+    v.prove("last_full_dt_untouched", lfd_now(s) == s.lfd0)
+
+
+@P.task("check_exit.inexact", fn=CHECK)
+def _(v):
+    """exact_finish_time != 1: SUCCESS iff sign*(t - tmax) >= 0 (at or past the target); nothing is modified."""
+    s = check_setup(v)
+    sg = z3.If(s.dt > 0, z3.RealVal(1), z3.RealVal(-1))
+    v.assume(s.exact != 1, s.status == s.E(RUNNING), s.N > 0)
+    ret = v.call(CHECK, s.rp, s.tmax, s.lfdp)
+    v.assume(s.err[0] == 0)
+    r = s.r
+    v.prove("success_iff_at_or_past_target", (ret == s.E(SUCCESS)) == (sg * (s.t - s.tmax) >= 0))
+    v.prove("else_keeps_running", z3.Or(ret == s.E(SUCCESS), ret == s.E(RUNNING)))
+    v.prove("nothing_modified", z3.And(r.t == s.t, r.dt == s.dt, lfd_now(s) == s.lfd0))
+
+
+@P.task("check_exit.status_precedence", fn=CHECK)
+def _(v):
+    """complete description of the returned status (derived from the enum meaning, compared with the code):
+       no particles (and no ODE-only BS run)   -> NO_PARTICLES      (wins over everything)
+       an error message is queued              -> GENERIC_ERROR     (wins over an exit status set during the step)
+       status already >= 0 (ESCAPE, ENCOUNTER, USER, SIGINT, COLLISION set by the previous step / heartbeat)
+                                               -> returned unchanged at this, the first, check after it was set
+       otherwise the time logic decides (SUCCESS / RUNNING / LAST_STEP); tmax == INFINITY never finishes by time."""
     s = mk(v)
-    lfd, lfdp = v.cell("double", "last_full_dt")
-    v.assume(s.status >= -2, s.status <= 7)
-    ret = v.call(CHECK, s.rp, s.tmax, lfdp)
-    v.prove("ret_is_status", ret == s.r.status)
+    s.lfd0 = v.real("last_full_dt")
+    s.lfd, s.lfdp = v.cell("double", "last_full_dt", s.lfd0)
+    v.assume(s.dt != 0)
+    v.assume(z3.Or(s.status == s.E(RUNNING), s.status == s.E(LAST_STEP), z3.And(0 <= s.status, s.status <= 7)))
+    ret = v.call(CHECK, s.rp, s.tmax, s.lfdp)
+    err = s.err[0]
+    r = s.r
+    v.prove("returns_r_status", ret == r.status)
+    v.prove("no_particles_first", z3.Implies(no_particles(s), ret == s.E("REB_STATUS_NO_PARTICLES")))
+    v.prove("then_error", z3.Implies(z3.And(z3.Not(no_particles(s)), err == 1), ret == s.E("REB_STATUS_GENERIC_ERROR")))
+    v.prove("then_pending_exit_status", z3.Implies(z3.And(z3.Not(no_particles(s)), err == 0, s.status >= 0), ret == s.status))
+    v.prove("pending_exit_status.time_state_untouched", z3.Implies(z3.Or(s.status >= 0, err == 1),
+                                                                   z3.And(r.t == s.t, r.dt == s.dt, lfd_now(s) == s.lfd0)))
+    v.prove("otherwise_time_logic", z3.Implies(z3.And(z3.Not(no_particles(s)), err == 0, s.status < 0),
+                                               z3.Or(ret == s.E(SUCCESS), ret == s.E(RUNNING), ret == s.E(LAST_STEP))))
+    v.prove("infinite_target_never_succeeds", z3.Implies(z3.And(z3.Not(no_particles(s)), err == 0, s.status < 0, s.tmax == INF),
+                                                         z3.And(ret == s.status, r.dt == s.dt)))
+    v.prove("ode_only_bs_run_continues", z3.Implies(z3.And(s.N == 0, s.N_odes > 0, r.integrator == s.E("REB_INTEGRATOR_BS"), err == 0, s.status >= 0),
+                                                    ret == s.status))
+    v.prove("t_never_written", r.t == s.t)
+    v.prove("N_never_written", r.N == s.N)
+
+
+@P.task("check_exit.error_waiting.no_messages", fn=ERRW)
+def _(v):
+    r, rp = v.struct_obj("struct reb_simulation", "r")
+    r.messages = NULL
+    ret = v.call(ERRW, rp)
+    v.prove("returns_0", ret == 0)
+
+
+# =====================================================================================================
+# the loop of reb_simulation_integrate_raw
+# =====================================================================================================
+def integrate_setup(v, kind, sg, sets_dld=True):
+    s = mk(v)
+    r = s.r
+    v.assume(s.dt != 0, s.tmax != INF, s.tmax != s.t)
+    v.assume(s.status != s.E("REB_STATUS_PAUSED"), s.status != s.E("REB_STATUS_SCREENSHOT"))
+    v.assume(s.tmax > s.t if sg > 0 else s.tmax < s.t)
+    s.sg = sg
+    s.h = absr(s.dt)
+    s.D = s.h if sg > 0 else -s.h              # the user's step with the sign of the direction of integration
+    v.contract(STEP, step_contract(kind, sets_dld))
+    v.contract("reb_run_heartbeat", heartbeat_contract)
+    return s
+
+
+def common_invariants(s, L):
+    st, t, dt = fld(s, L, "status"), fld(s, L, "t"), fld(s, L, "dt")
+    k = fld(s, L, "steps_done") - s.steps0
+    return st, t, dt, k
+
+
+def run_and_common_posts(v, s):
+    ret = v.call(INTEGRATE, s.rp, s.tmax)
+    r = s.r
+    v.prove("returns_final_status", ret == r.status)
+    v.prove("returns_nonnegative_status", z3.And(0 <= ret, ret <= 7))
+    v.prove("time_never_moves_against_direction", s.sg * (r.t - s.t) >= 0)
+    return ret
+
+
+def gen_fixed_inexact(sg):
+    tag = "forward" if sg > 0 else "backward"
+
+    @P.task("integrate.fixed.inexact.%s" % tag, fn=RAW)
+    def _(v):
+        """fixed-step integrators (incl. JANUS: sets_dld arbitrary), exact_finish_time != 1:
+        loop invariant  t = t0 + k*D (k = steps taken), dt = D, previous boundary was before tmax.
+        On SUCCESS: 0 <= sign*(t - tmax) < |dt|, k = ceil((tmax - t0)/D); dt = user's dt with the direction sign."""
+        sd = z3.Bool("integrator_sets_dt_last_done")
+        s = integrate_setup(v, "fixed", sg, sd)
+        v.assume(s.exact != 1)
+        D = s.D
+
+        def inv(L):
+            st, t, dt, k = common_invariants(s, L)
+            return [("dt_is_user_step_with_direction", dt == D),
+                    ("last_full_dt", L.last_full_dt == D),
+                    ("status", z3.Or(st == s.E(RUNNING), exit_status(st))),
+                    ("steps", z3.And(k >= 0, t == s.t + z3.ToReal(k) * D)),
+                    ("monotone", sg * (t - s.t) >= 0),
+                    ("previous_boundary_before_target", z3.Or(k == 0, sg * (t - D - s.tmax) < 0))]
+        v.loop(RAW, 0, invariant=inv)
+        ret = run_and_common_posts(v, s)
+        r = s.r
+        k = r.steps_done - s.steps0
+        ok = ret == s.E(SUCCESS)
+        v.prove("success.at_or_past_target", z3.Implies(ok, sg * (r.t - s.tmax) >= 0))
+        v.prove("success.overshoot_less_than_one_step", z3.Implies(ok, sg * (r.t - s.tmax) < s.h))
+        v.prove("success.number_of_steps_is_ceil", z3.Implies(ok, z3.And(z3.ToReal(k - 1) * s.h < sg * (s.tmax - s.t),
+                                                                         sg * (s.tmax - s.t) <= z3.ToReal(k) * s.h, k >= 1)))
+        v.prove("t_is_step_boundary", r.t == s.t + z3.ToReal(k) * D)
+        v.prove("dt_afterwards_is_user_dt_with_direction", r.dt == D)
+        v.prove("early_exit_names_exit_condition", z3.Implies(z3.Not(ok), exit_status(ret)))
+
+
+def gen_fixed_exact(sg):
+    tag = "forward" if sg > 0 else "backward"
+
+    @P.task("integrate.fixed.exact.%s" % tag, fn=RAW)
+    def _(v):
+        """fixed-step integrators, exact_finish_time == 1.  Two-phase invariant:
+        (1) full steps: dt = D, t strictly before tmax;  (2) the shortened last step has been taken: t == tmax.
+        On SUCCESS t == tmax exactly; in every case dt is restored to the user's step (direction sign)."""
+        sd = z3.Bool("integrator_sets_dt_last_done")
+        s = integrate_setup(v, "fixed", sg, sd)
+        v.assume(s.exact == 1)
+        D = s.D
+
+        def inv(L):
+            st, t, dt, k = common_invariants(s, L)
+            dld = fld(s, L, "dt_last_done")
+            full = z3.And(dt == D, sg * (s.tmax - t) > 0, z3.Or(st == s.E(RUNNING), exit_status(st)), z3.Or(dld == 0, dld == D),
+                          t == s.t + z3.ToReal(k) * D)
+            last = z3.And(t == s.tmax, z3.Or(st == s.E(LAST_STEP), exit_status(st)), k >= 1)
+            return [("last_full_dt_is_user_step", L.last_full_dt == D),
+                    ("dt_direction", sg * dt > 0),
+                    ("phase", z3.Or(full, last)),
+                    ("steps", k >= 0),
+                    ("monotone", sg * (t - s.t) >= 0)]
+        v.loop(RAW, 0, invariant=inv)
+        ret = run_and_common_posts(v, s)
+        r = s.r
+        ok = ret == s.E(SUCCESS)
+        v.prove("success.ends_exactly_on_target", z3.Implies(ok, r.t == s.tmax))
+        v.prove("never_past_target", sg * (s.tmax - r.t) >= 0)
+        v.prove("dt_restored_to_user_dt_with_direction", r.dt == D)
+        v.prove("early_exit_names_exit_condition", z3.Implies(z3.Not(ok), exit_status(ret)))
+        k = r.steps_done - s.steps0
+        v.prove("success.took_at_least_one_step", z3.Implies(ok, k >= 1))
+
+
+def gen_adaptive(sg):
+    tag = "forward" if sg > 0 else "backward"
+
+    @P.task("integrate.adaptive.exact.%s" % tag, fn=RAW)
+    def _(v):
+        """adaptive step contract, exact_finish_time == 1: t never passes tmax, never moves backwards, SUCCESS only within
+        the code's tolerance of tmax, dt afterwards = last full step (same direction)."""
+        s = integrate_setup(v, "adaptive", sg)
+        v.assume(s.exact == 1)
+        tol = z3.If(absr(s.tmax) * E12 < E200, E12, absr(s.tmax) * E12)
+
+        def inv(L):
+            st, t, dt, k = common_invariants(s, L)
+            dld = fld(s, L, "dt_last_done")
+            return [("dt_direction", sg * dt > 0),
+                    ("last_full_dt_direction", sg * L.last_full_dt > 0),
+                    ("dt_last_done_direction", z3.Or(dld == 0, sg * dld > 0)),
+                    ("status", z3.Or(st == s.E(RUNNING), st == s.E(LAST_STEP), exit_status(st))),
+                    ("not_past_target", sg * (s.tmax - t) >= 0),
+                    ("monotone", sg * (t - s.t) >= 0)]
+        v.loop(RAW, 0, invariant=inv)
+        ret = run_and_common_posts(v, s)
+        r = s.r
+        ok = ret == s.E(SUCCESS)
+        v.prove("success.within_tolerance_of_target", z3.Implies(ok, z3.Or(r.t == s.tmax, absr(r.t - s.tmax) < tol)))
+        v.prove("success.within_1e-12_relative", z3.Implies(z3.And(ok, absr(s.tmax) >= z3.RealVal("1e-187")),
+                                                             absr(r.t - s.tmax) <= z3.RealVal("1e-12") * absr(s.tmax)))
+        v.prove("never_past_target", sg * (s.tmax - r.t) >= 0)
+        v.prove("dt_afterwards_points_in_direction", sg * r.dt > 0)
+        v.prove("early_exit_names_exit_condition", z3.Implies(z3.Not(ok), exit_status(ret)))
+
+    @P.task("integrate.adaptive.inexact.%s" % tag, fn=RAW)
+    def _(v):
+        """adaptive step contract, exact_finish_time != 1: exit at the first boundary at or past tmax, overshoot smaller
+        than the last completed step (dt_last_done)."""
+        s = integrate_setup(v, "adaptive", sg)
+        v.assume(s.exact != 1)
+
+        def inv(L):
+            st, t, dt, k = common_invariants(s, L)
+            dld = fld(s, L, "dt_last_done")
+            return [("dt_direction", sg * dt > 0),
+                    ("dt_last_done_direction", z3.Or(dld == 0, sg * dld > 0)),
+                    ("status", z3.Or(st == s.E(RUNNING), exit_status(st))),
+                    ("monotone", sg * (t - s.t) >= 0),
+                    ("previous_boundary_before_target", z3.If(dld == 0, t == s.t, sg * (t - dld - s.tmax) < 0))]
+        v.loop(RAW, 0, invariant=inv)
+        ret = run_and_common_posts(v, s)
+        r = s.r
+        ok = ret == s.E(SUCCESS)
+        v.prove("success.at_or_past_target", z3.Implies(ok, sg * (r.t - s.tmax) >= 0))
+        v.prove("success.overshoot_less_than_last_step", z3.Implies(ok, sg * (r.t - s.tmax) < absr(r.dt_last_done)))
+        v.prove("dt_afterwards_points_in_direction", sg * r.dt > 0)
+        v.prove("early_exit_names_exit_condition", z3.Implies(z3.Not(ok), exit_status(ret)))
+
+
+for _sg in (1, -1):
+    gen_fixed_inexact(_sg)
+    gen_fixed_exact(_sg)
+    gen_adaptive(_sg)
+
+
+@P.task("integrate.noop", fn=RAW)
+def _(v):
+    """tmax == t: no step is taken, t and dt are unchanged (dt keeps the user's sign), SUCCESS unless an exit condition
+    is already pending (error message, heartbeat, no particles).  dt_last_done IS reset to 0 (deliberate, see code)."""
+    s = mk(v)
+    v.assume(s.dt != 0, s.tmax != INF, s.tmax == s.t)
+    v.assume(s.status != s.E("REB_STATUS_PAUSED"), s.status != s.E("REB_STATUS_SCREENSHOT"))
+    steps = []
+
+    def step(eng, st, args, n):
+        steps.append(1)
+        return step_contract("adaptive")(eng, st, args, n)
+    v.contract(STEP, step)
+    hb = []
+
+    def heartbeat(eng, st, args, n):
+        heartbeat_contract(eng, st, args, n)
+        hb.append(eng.read(st, Ptr(args[0].obj, ("status",))))
+    v.contract("reb_run_heartbeat", heartbeat)
+    v.loop(RAW, 0, unroll=2)
+    ret = v.call(INTEGRATE, s.rp, s.tmax)
+    r = s.r
+    v.ground("no_step_taken", not steps)
+    v.prove("steps_done_unchanged", r.steps_done == s.steps0)
+    v.prove("t_unchanged", r.t == s.t)
+    v.prove("dt_unchanged", r.dt == s.dt)
+    v.prove("N_unchanged", r.N == s.N)
+    v.prove("status", ret == z3.If(no_particles(s), s.E("REB_STATUS_NO_PARTICLES"),
+                                  z3.If(s.err[0] == 1, s.E("REB_STATUS_GENERIC_ERROR"),
+                                        z3.If(hb[0] >= 0, hb[0], s.E(SUCCESS)))))
+    v.prove("dt_last_done_reset", r.dt_last_done == 0)
+
+
+@P.task("integrate.prologue_direction", fn=RAW)
+def _(v):
+    """before the loop: dt gets the sign of (tmax - t), magnitude unchanged; if it already points that way it is unchanged
+    (copysign is exact, so a follow-up call continues with bitwise the same dt); status := RUNNING."""
+    s = mk(v)
+    v.assume(s.dt != 0, s.tmax != INF, s.tmax != s.t)
+    v.assume(s.status != s.E("REB_STATUS_PAUSED"), s.status != s.E("REB_STATUS_SCREENSHOT"))
+    seen = []
+
+    def heartbeat(eng, st, args, n):
+        rd = lambda f: eng.read(st, Ptr(args[0].obj, (f,)))
+        seen.append((rd("t"), rd("dt"), rd("status"), rd("dt_last_done")))
+        # stop immediately: exposes the state right after the prologue
+        eng.write(st, Ptr(args[0].obj, ("status",)), s.E("REB_STATUS_USER"))
+    v.contract("reb_run_heartbeat", heartbeat)
+    v.contract(STEP, step_contract("fixed"))
+    v.loop(RAW, 0, unroll=2)
+    ret = v.call(INTEGRATE, s.rp, s.tmax)
+    t1, dt1, st1, dld1 = seen[0]
+    v.prove("dt_points_to_target", dt1 * (s.tmax - s.t) > 0)
+    v.prove("dt_magnitude_kept", absr(dt1) == absr(s.dt))
+    v.prove("dt_unchanged_if_already_pointing_to_target", z3.Implies(s.dt * (s.tmax - s.t) > 0, dt1 == s.dt))
+    v.prove("t_untouched", t1 == s.t)
+    v.prove("status_running", st1 == s.E(RUNNING))
+    v.prove("dt_last_done_reset", dld1 == 0)
+    v.prove("user_stop_returned_at_next_check", z3.Implies(z3.And(s.err[0] == 0, s.N > 0), ret == s.E("REB_STATUS_USER")))
+    v.prove("user_stop.no_step.t_unchanged", s.r.t == s.t)
+    v.prove("user_stop.dt_keeps_direction_and_size", s.r.dt == dt1)
+
+
+@P.task("steps.fixed", fn="reb_simulation_steps")
+def _(v):
+    """reb_simulation_steps(r, n) with the fixed step contract: t' = t + n*dt, dt unchanged, steps_done += n"""
+    s = mk(v)
+    n = v.int("N_steps")
+    v.assume(n >= 0)
+    v.contract(STEP, step_contract("fixed"))
+
+    def inv(L):
+        i = L.i
+        return [("range", z3.And(0 <= i, i <= n)), ("t", fld(s, L, "t") == s.t + z3.ToReal(i) * s.dt),
+                ("dt", fld(s, L, "dt") == s.dt), ("count", fld(s, L, "steps_done") == s.steps0 + i)]
+    v.loop("reb_simulation_steps", 0, invariant=inv, variant=lambda L: n - L.i)
+    v.call("reb_simulation_steps", s.rp, n)
+    v.prove("t", s.r.t == s.t + z3.ToReal(n) * s.dt)
+    v.prove("dt", s.r.dt == s.dt)
+    v.prove("steps_done", s.r.steps_done == s.steps0 + n)
+
+
+@P.task("split.step_count_additive", fn=RAW)
+def _(v):
+    """lemma over the contract of integrate.fixed.inexact: integrating t0 -> tmax1 -> tmax2 (same direction, tmax2 not
+    before the point t1 actually reached) takes k1 + k2 = ceil((tmax2 - t0)/h) steps of the same dt: the same step
+    boundaries as a single call to tmax2."""
+    t0, h, a, b = v.real("t0"), v.real("h"), v.real("tmax1"), v.real("tmax2")
+    k1, k2, K = v.int("k1"), v.int("k2"), v.int("K")
+    R = z3.ToReal
+    t1 = t0 + R(k1) * h
+    hyps = [h > 0, a > t0, b > t1, k1 >= 1, k2 >= 1, K >= 1,
+            R(k1 - 1) * h < a - t0, a - t0 <= R(k1) * h,          # first call   (success.number_of_steps_is_ceil)
+            R(k2 - 1) * h < b - t1, b - t1 <= R(k2) * h,          # second call, starting at t1 with the same dt
+            R(K - 1) * h < b - t0, b - t0 <= R(K) * h]            # single call
+    v.lemma("same_number_of_steps", hyps, K == k1 + k2)
+    v.lemma("same_end_time", hyps, t0 + R(K) * h == t1 + R(k2) * h)
+
+
+# =====================================================================================================
+# the step contract on the real part1 / part2
+# =====================================================================================================
+def true_inv(L):
+    return [("index_nonnegative", L.i >= 0)]
+
+
+def step_post(v, r, t0, dt0, dld0, sets_dld=True):
+    v.prove("t_advances_by_dt", r.t == t0 + dt0)
+    v.prove("dt_unchanged", r.dt == dt0)
+    if sets_dld:
+        v.prove("dt_last_done_is_dt", r.dt_last_done == dt0)
+    else:
+        v.prove("dt_last_done_NOT_set", r.dt_last_done == dld0)
+
+
+def simple_step_task(name, integ, loops, files=None, defined=True):
+    @P.task("stepcontract." + name, fn="reb_integrator_part2", files=files)
+    def _(v):
+        """reb_integrator_part1; (forces); reb_integrator_part2 through the real dispatch: t' = t+dt, dt' = dt,
+        dt_last_done' = dt.  Particle loops run under the trivial invariant (everything they write is havocked)."""
+        r, rp = v.struct_obj("struct reb_simulation", "r")
+        N = v.int("N")
+        parts = v.array("struct reb_particle", N, "P")
+        r.N, r.particles, r.N_odes = N, parts.ptr, 0
+        r.integrator = v.enumc(integ)
+        v.assume(N >= 0)
+        v.eng.check_defined = defined      # False: divisions inside the per-particle operators are not this contract's business
+        t0, dt0, dld0 = r.t, r.dt, r.dt_last_done
+        for (fn, k) in loops:
+            v.loop(fn, k, invariant=true_inv)
+        v.call("reb_integrator_part1", rp)
+        v.eng.havoc(v.st, {(parts.obj.id, None)}, "forces")          # reb_calculate_acceleration writes particles[].a*
+        v.call("reb_integrator_part2", rp)
+        step_post(v, r, t0, dt0, dld0)
+
+
+simple_step_task("leapfrog", "REB_INTEGRATOR_LEAPFROG", [("reb_integrator_leapfrog_part1", 0), ("reb_integrator_leapfrog_part2", 0)])
+simple_step_task("sei", "REB_INTEGRATOR_SEI", [("reb_integrator_sei_part1", 0), ("reb_integrator_sei_part2", 0)], defined=False)
+simple_step_task("none", "REB_INTEGRATOR_NONE", [])
+
+
+def whfast_step_task(coord, safe, sync):
+    from contracts import _words as W
+    from contracts.C01_order import wh_cfg
+
+    @P.task("stepcontract.whfast.%s.safe%d.sync%d" % (coord.lower(), safe, sync), fn="reb_integrator_whfast_part2", files=W.WH_FILES)
+    def _(v):
+        """WHFast through the real dispatch; the Kepler/jump/interaction/COM primitives and coordinate transforms are
+        replaced by havoc of the arrays they write (their write frames exclude t, dt, dt_last_done: stepcontract.frame)"""
+        r, rp, dt = W.make_sim(v, wh_cfg(coord, "DEFAULT", 0, 0, safe=safe, sync=sync))
+        r.N_odes = 0
+        t0, dt0, dld0 = r.t, r.dt, r.dt_last_done
+        W.run(v, rp, ["reb_integrator_part1", "F", "reb_integrator_part2"])
+        step_post(v, r, t0, dt0, dld0)
+
+
+for _c in ("JACOBI", "DEMOCRATICHELIOCENTRIC", "WHDS", "BARYCENTRIC"):
+    whfast_step_task(_c, 1, 1)
+whfast_step_task("JACOBI", 0, 1)
+whfast_step_task("JACOBI", 0, 0)
+
+
+def saba_step_task(tname):
+    from contracts import _words as W
+    from contracts.C01_order import saba_cfg
+
+    @P.task("stepcontract.saba.%s" % tname[9:].lower(), fn="reb_integrator_saba_part2", files=W.WH_FILES)
+    def _(v):
+        r, rp, dt = W.make_sim(v, saba_cfg(tname))
+        r.N_odes = 0
+        t0, dt0, dld0 = r.t, r.dt, r.dt_last_done
+        W.run(v, rp, ["reb_integrator_part1", "F", "reb_integrator_part2"])
+        step_post(v, r, t0, dt0, dld0)
+
+
+for _t in ("REB_SABA_1", "REB_SABA_4", "REB_SABA_10_6_4", "REB_SABA_H_8_4_4"):
+    saba_step_task(_t)
+
+
+@P.task("stepcontract.janus", fn="reb_integrator_janus_part2", files=["src/integrator_janus.c", "src/integrator.c"])
+def _(v):
+    """JANUS: t' = t + dt, dt' = dt, and dt_last_done is NOT written (it stays at the 0 the integrate prologue stored:
+    reb_check_exit then keeps last_full_dt = the user's dt, so the restore clause still holds -- integrate.fixed.exact
+    is proved for an integrator that sets dt_last_done and for one that does not)."""
+    order = v.int("order")
+    v.assume(z3.Or(*[order == o for o in (2, 4, 6, 8, 10)]))
+    r, rp = v.struct_obj("struct reb_simulation", "r")
+    N = v.int("N")
+    r.N, r.N_odes = N, 0
+    r.integrator = v.enumc("REB_INTEGRATOR_JANUS")
+    r.ri_janus.order = order
+    r.ri_janus.N_allocated = N
+    r.ri_janus.recalculate_integer_coordinates_this_timestep = 0
+    pint = v.array("struct reb_particle_int", N, "PI")
+    parts = v.array("struct reb_particle", N, "P")
+    r.ri_janus.p_int, r.particles = pint.ptr, parts.ptr
+    v.assume(N >= 0)
+    v.eng.const_globals = {"s1odr2", "s5odr4", "s9odr6a", "s15odr8", "s33odr10c"}
+
+    def prim(arrs):
+        def f(eng, st, args, n):
+            eng.havoc(st, {(a.obj.id, None) for a in arrs}, "prim")
+        return f
+    for nm, arrs in {"drift": [pint], "kick": [pint], "to_double": [parts], "to_int": [pint],
+                     "reb_simulation_update_acceleration": [parts], "reb_simulation_error": []}.items():
+        v.eng.trace_prims[nm] = prim(arrs)
+    t0, dt0, dld0 = r.t, r.dt, r.dt_last_done
+    v.call("reb_integrator_part1", rp)
+    v.call("reb_integrator_part2", rp)
+    step_post(v, r, t0, dt0, dld0, sets_dld=False)
+
+
+# =====================================================================================================
+# write frames computed from the AST of the whole library (engine.frames)
+# =====================================================================================================
+def may_write(summ, field, param=0):
+    for (root, path) in summ.writes:
+        if root == ("P", param) and (len(path) == 0 or path[0] == field or path[0] in ("*", "...")):
+            return True
+    return False
+
+
+TIME_FIELDS = ("t", "dt", "dt_last_done", "exact_finish_time")
+
+
+@P.task("stepcontract.frame", fn=STEP, files=["src/rebound.c"], timeout=300)
+def _(v):
+    """frame conditions used by the contracts above, from the write summaries (transitive, field sensitive) of the real
+    library sources: which r-> members each function may write."""
+    from engine import frames
+    from contracts import _words as W
+    lib = frames.Lib(repo=v.eng.tus[0].repo)
+    S_ = frames.Summaries(lib)
+    prims = list(W.PRIMS) + [n for n in W.NOTES] + ["drift", "kick", "to_double", "to_int", "reb_simulation_update_acceleration"]
+    S_.compute([INTEGRATE, STEP, CHECK, "reb_run_heartbeat", "reb_simulation_synchronize", "reb_particle_check_testparticles",
+                "reb_simulation_steps", "reb_simulationarchive_heartbeat"] + [p for p in prims if lib.function(p)[1] is not None])
+    t, fn = lib.function(STEP)
+    callees = sorted({frames.callee_name(n) for n in frames.walk(fn) if n.get("kind") == "CallExpr"} - {None})
+    v.ground("step.calls_part1_and_part2", "reb_integrator_part1" in callees and "reb_integrator_part2" in callees, str(callees))
+    for c in callees:
+        if c in ("reb_integrator_part1", "reb_integrator_part2"):
+            continue
+        bad = [f for f in TIME_FIELDS if may_write(S_.get(c), f)]
+        v.ground("step.callee.%s.does_not_write_time_fields" % c, not bad, "%s may write %s" % (c, bad))
+    # statements of reb_simulation_step itself
+    own = sorted({".".join(r[1]) for (r, _l) in S_.analyses[STEP].direct_writes if r[0] == ("P", 0)} & set(TIME_FIELDS))
+    inherited = {f for c in ("reb_integrator_part1", "reb_integrator_part2") for f in TIME_FIELDS if may_write(S_.get(c), f)}
+    v.ground("step.time_fields_written_only_through_part1_part2", set(own) <= inherited, "%s vs %s" % (own, sorted(inherited)))
+    v.ground("step.increments_steps_done", may_write(S_.get(STEP), "steps_done"))
+    # fixed-step integrators: dt is not written at all, t / dt_last_done only by partN themselves
+    for integ in ("leapfrog", "sei", "whfast", "saba", "eos", "janus"):
+        for part in ("part1", "part2"):
+            s_ = S_.get("reb_integrator_%s_%s" % (integ, part))
+            bad = [f for f in ("dt", "exact_finish_time", "status", "steps_done") if may_write(s_, f)]
+            v.ground("fixed.%s.%s.does_not_write_dt_status" % (integ, part), not bad, str(bad))
+    v.ground("janus.never_writes_dt_last_done", not any(may_write(S_.get("reb_integrator_janus_" + p), "dt_last_done") for p in ("part1", "part2", "synchronize")))
+    for integ in ("mercurius", "trace", "ias15", "bs"):
+        s_ = S_.get("reb_integrator_%s_part2" % integ)
+        v.ground("adaptive_or_hybrid.%s.part2.writes_dt(reason_it_is_not_under_the_fixed_contract)" % integ, may_write(s_, "dt"))
+    # primitives replaced by havoc in stepcontract.whfast/saba/janus
+    for p in prims:
+        if lib.function(p)[1] is None:
+            continue
+        bad = [f for f in TIME_FIELDS + ("status", "steps_done") if may_write(S_.get(p), f)]
+        v.ground("primitive.%s.does_not_write_time_fields" % p, not bad, str(bad))
+    # synchronize / heartbeat / check_exit / helpers used through contracts in the integrate.* tasks
+    sy = S_.get("reb_simulation_synchronize")
+    bad = [f for f in TIME_FIELDS + ("status", "N", "steps_done") if may_write(sy, f)]
+    v.ground("synchronize.frame", not bad, str(bad))
+    hb = S_.get("reb_run_heartbeat")
+    v.ground("heartbeat.writes_only_status", {p for (root, p) in hb.writes if root == ("P", 0)} == {("status",)}, str(sorted(hb.writes, key=str)))
+    v.ground("heartbeat.indirect_calls_are_the_user_heartbeat", hb.indirect <= {"r->heartbeat"}, str(hb.indirect))
+    ce = S_.get(CHECK)
+    bad = [f for f in ("t", "dt_last_done", "exact_finish_time", "N", "steps_done") if may_write(ce, f)]
+    v.ground("check_exit.frame", not bad and may_write(ce, "dt") and may_write(ce, "status"), str(bad))
+    for f_ in ("reb_particle_check_testparticles",):
+        v.ground("%s.writes_nothing" % f_, not [w for w in S_.get(f_).writes if w[0][0] == "P"], str(S_.get(f_).writes))
+    w = S_.get("reb_simulation_warning")
+    v.ground("warning.writes_only_messages", {p[0] for (root, p) in w.writes if root == ("P", 0) and p} <= {"messages"} and
+             not any(root == ("P", 0) and not p for (root, p) in w.writes), str(sorted(w.writes, key=str)))
+    ah = S_.get("reb_simulationarchive_heartbeat")
+    bad = [f for f in TIME_FIELDS + ("status", "N", "steps_done") if may_write(ah, f)]
+    v.ground("simulationarchive_heartbeat.frame", not bad, str(bad))
+    # prologue/epilogue of integrate_raw: own statements write only dt, dt_last_done, status (+ the sigint flag)
+    raw_t, raw_fn = lib.function(RAW)
+    own_fields = set()
+    for n in frames.walk(raw_fn):
+        k = n.get("kind")
+        if (k == "BinaryOperator" and n.get("opcode") == "=") or k == "CompoundAssignOperator" or \
+           (k == "UnaryOperator" and n.get("opcode") in ("++", "--")):
+            lhs = frames.strip_casts(n["inner"][0])
+            if lhs.get("kind") == "MemberExpr":
+                own_fields.add(frames.expr_text(lhs))
+    v.ground("integrate_raw.own_assignments", own_fields <= {"r->dt", "r->dt_last_done", "r->status", "r->server_data->mutex_locked_by_integrate"},
+             str(sorted(own_fields)))
+
+
+# =====================================================================================================
+# Python: Simulation.integrate status -> exception
+# =====================================================================================================
+EXPECTED_EXCEPTION = {        # specification: docs (c_api / ipython examples "exceptions") and the enum comments
+    "REB_STATUS_SUCCESS": None, "REB_STATUS_GENERIC_ERROR": "GenericError", "REB_STATUS_NO_PARTICLES": "NoParticles",
+    "REB_STATUS_ENCOUNTER": "Encounter", "REB_STATUS_ESCAPE": "Escape", "REB_STATUS_USER": None,
+    "REB_STATUS_SIGINT": "KeyboardInterrupt", "REB_STATUS_COLLISION": "Collision",
+}
+
+
+def _raised_name(stmt):
+    ex = stmt.exc
+    if isinstance(ex, pyast.Call):
+        ex = ex.func
+    return ex.id if isinstance(ex, pyast.Name) else (ex.attr if isinstance(ex, pyast.Attribute) else None)
+
+
+def _raises_in(body):
+    out = []
+    for st in body:
+        for n in pyast.walk(st):
+            if isinstance(n, pyast.Raise):
+                out.append(_raised_name(n))
+    return out
+
+
+@P.task("python.status_to_exception", fn=INTEGRATE, files=["src/rebound.c"])
+def _(v):
+    """rebound/simulation.py Simulation.integrate (parsed with ast on every run) against enum REB_STATUS from clang:
+    every non-negative status has exactly the documented exception; nothing else raises."""
+    repo = v.eng.tus[0].repo
+    src = open(os.path.join(repo, "rebound", "simulation.py")).read()
+    tree = pyast.parse(src)
+    cls = [n for n in tree.body if isinstance(n, pyast.ClassDef) and n.name == "Simulation"]
+    v.ground("class_Simulation_found", len(cls) == 1)
+    fn = [n for n in cls[0].body if isinstance(n, pyast.FunctionDef) and n.name == "integrate"]
+    v.ground("method_integrate_found", len(fn) == 1)
+    fn = fn[0]
+    enum = v.eng.tu0.enum_sets["REB_STATUS"]
+    v.ground("enum.nonnegative_statuses_are_the_specified_ones", {k for k, val in enum.items() if val >= 0} == set(EXPECTED_EXCEPTION),
+             str(sorted((val, k) for k, val in enum.items())))
+    v.ground("enum.running_states_negative", all(enum[k] < 0 for k in enum if k not in EXPECTED_EXCEPTION))
+    # ret_value = clibrebound.reb_simulation_integrate(byref(self), c_double(tmax))
+    assigns = [n for n in pyast.walk(fn) if isinstance(n, pyast.Assign) and isinstance(n.value, pyast.Call)
+               and isinstance(n.value.func, pyast.Attribute) and n.value.func.attr == "reb_simulation_integrate"]
+    v.ground("calls_reb_simulation_integrate_once", len(assigns) == 1)
+    var = assigns[0].targets[0].id
+    call = assigns[0].value
+    v.ground("passes_tmax", len(call.args) == 2 and isinstance(call.args[1], pyast.Call) and getattr(call.args[1].func, "id", "") == "c_double"
+             and getattr(call.args[1].args[0], "id", "") == "tmax")
+    # exact_finish_time is stored into the struct before the call
+    pos = fn.body.index(assigns[0])
+    sets = [n for n in fn.body[:pos] if isinstance(n, pyast.Assign) and isinstance(n.targets[0], pyast.Attribute)
+            and n.targets[0].attr == "exact_finish_time"]
+    v.ground("exact_finish_time_argument_stored_before_call", len(sets) == 1 and "exact_finish_time" in pyast.dump(sets[0].value))
+    table, other_raises = {}, []
+    for st in fn.body[pos + 1:]:
+        if isinstance(st, pyast.If) and isinstance(st.test, pyast.Compare) and isinstance(st.test.left, pyast.Name) and st.test.left.id == var \
+           and len(st.test.ops) == 1 and isinstance(st.test.ops[0], pyast.Eq) and isinstance(st.test.comparators[0], pyast.Constant) and not st.orelse:
+            code = st.test.comparators[0].value
+            rs = set(_raises_in(st.body))
+            uncond = any(isinstance(x, pyast.Raise) for x in st.body) or \
+                any(isinstance(x, pyast.If) and x.orelse and _raises_in(x.body) and _raises_in(x.orelse) for x in st.body)
+            table.setdefault(code, []).append((rs, uncond))
+        else:
+            other_raises += _raises_in([st])
+    v.ground("no_raise_outside_status_table", not other_raises, str(other_raises))
+    byval = {val: k for k, val in enum.items()}
+    for code in sorted(table):
+        v.ground("python_code_%s_is_an_enum_value" % code, code in byval and byval[code] in EXPECTED_EXCEPTION, str(code))
+        v.ground("python_code_%s_handled_once" % code, len(table[code]) == 1)
+    for name, exc in sorted(EXPECTED_EXCEPTION.items(), key=lambda kv: enum[kv[0]]):
+        val = enum[name]
+        got = table.get(val, [(set(), False)])[0]
+        if exc is None:
+            v.ground("%s(%d).raises_nothing" % (name, val), not got[0], str(got))
+        else:
+            v.ground("%s(%d).raises_%s" % (name, val, exc), got[0] == {exc} and got[1], str(got))
+    # the exception classes exist in the package
+    pkg = os.path.join(repo, "rebound")
+    defined = set()
+    for f in os.listdir(pkg):
+        if f.endswith(".py"):
+            for n in pyast.walk(pyast.parse(open(os.path.join(pkg, f)).read())):
+                if isinstance(n, pyast.ClassDef):
+                    defined.add(n.name)
+    for exc in sorted({e for e in EXPECTED_EXCEPTION.values() if e and e != "KeyboardInterrupt"}):
+        v.ground("exception_class_%s_defined" % exc, exc in defined)
+
+
+# =====================================================================================================
+# reb_run_heartbeat: user heartbeat + escape / close-encounter exit conditions ("exists a particle / a pair")
+# =====================================================================================================
+HB = "reb_run_heartbeat"
+P.assume("heartbeat.*: esc(k) / enc(a,b) are names for 'particle k is farther than exit_max_distance' / 'pair (a,b) is closer than "
+         "exit_min_distance' (definitional axioms over the particle array, instantiated by the solver)")
+
+
+def hb_setup(v):
+    r, rp = v.struct_obj("struct reb_simulation", "r")
+    N, Nvar = v.int("N"), v.int("N_var")
+    parts = v.array("struct reb_particle", None, "P")
+    r.N, r.N_var, r.particles = N, Nvar, parts.ptr
+    st0 = v.int("status")
+    r.status = st0
+    v.assume(0 <= Nvar, Nvar <= N)
+    X, Y, Z = parts.array("x"), parts.array("y"), parts.array("z")
+    dmax, dmin = v.real("exit_max_distance"), v.real("exit_min_distance")
+    r.exit_max_distance, r.exit_min_distance = dmax, dmin
+    called = []
+
+    def cb(eng, st, f, args, node, callee):
+        # the user's heartbeat: may raise an exit status (reb_simulation_stop), see P.assume
+        called.append(frames_text(callee))
+        havoc_status(eng, st, rp, "user_heartbeat")
+        return None
+    v.st.ghost["callback"] = cb
+    k, a, b = z3.Ints("k a b")
+    esc = z3.Function("esc", z3.IntSort(), z3.BoolSort())
+    enc = z3.Function("enc", z3.IntSort(), z3.IntSort(), z3.BoolSort())
+    sq = lambda u: u * u
+    v.assume(z3.ForAll([k], esc(k) == (sq(z3.Select(X, k)) + sq(z3.Select(Y, k)) + sq(z3.Select(Z, k)) > dmax * dmax), patterns=[esc(k)]))
+    v.assume(z3.ForAll([a, b], enc(a, b) == (sq(z3.Select(X, a) - z3.Select(X, b)) + sq(z3.Select(Y, a) - z3.Select(Y, b)) +
+                                            sq(z3.Select(Z, a) - z3.Select(Z, b)) < dmin * dmin), patterns=[enc(a, b)]))
+    return r, rp, N - Nvar, st0, dmax, dmin, esc, enc, called, parts
+
+
+def frames_text(n):
+    from engine import frames
+    return frames.expr_text(n)
+
+
+def status_of(L, rp):
+    return L.eng.read(L.st, Ptr(rp.obj, ("status",)))
+
+
+def upto(Nr):
+    return z3.If(Nr >= 0, Nr, 0)
+
+
+@P.task("heartbeat.off", fn=HB)
+def _(v):
+    """both distances 0 (the default): only the user heartbeat runs"""
+    r, rp, Nr, st0, dmax, dmin, esc, enc, called, parts = hb_setup(v)
+    v.assume(dmin == 0, dmax == 0)
+    v.call(HB, rp)
+    v.prove("status_is_what_user_heartbeat_left", z3.Or(r.status == st0, exit_status(r.status)))
+    v.prove("no_user_heartbeat_no_change", z3.Implies(z3.Not(r.heartbeat.tag), r.status == st0))
+    v.ground("only_indirect_call_is_r->heartbeat", set(called) <= {"r->heartbeat"}, str(called))
+
+
+@P.task("heartbeat.escape", fn=HB)
+def _(v):
+    """status' = ESCAPE iff some real particle k < N - N_var has x^2+y^2+z^2 > exit_max_distance^2 (else what the user
+    heartbeat left); particles untouched."""
+    r, rp, Nr, st0, dmax, dmin, esc, enc, called, parts = hb_setup(v)
+    v.assume(dmin == 0, dmax != 0)
+    ESC = v.enumc("REB_STATUS_ESCAPE")
+    k = z3.Int("k")
+    F = ("x", "y", "z", "vx", "vy", "vz", "m")
+    old = {f: parts.array(f) for f in F}
+    pre = {}
+
+    def inv(L):
+        cur, i = status_of(L, rp), L.i
+        s1 = pre["s1"] = L.eng.read(L.entry, Ptr(rp.obj, ("status",)))
+        return [("range", z3.And(i >= 0, i <= upto(Nr))),
+                ("found", z3.ForAll([k], z3.Implies(z3.And(0 <= k, k < i, esc(k)), cur == ESC))),
+                ("else_unchanged", z3.Or(cur == s1, z3.And(cur == ESC, z3.Exists([k], z3.And(0 <= k, k < i, esc(k))))))]
+    v.loop(HB, 0, invariant=inv, variant=lambda L: Nr - L.i)
+    v.call(HB, rp)
+    j = v.int("j")
+    s1 = pre["s1"]
+    v.prove("some_particle_escaped_implies_ESCAPE", z3.Implies(z3.And(0 <= j, j < Nr, esc(j)), r.status == ESC))
+    v.prove("otherwise_status_kept", z3.Implies(z3.Not(z3.Exists([k], z3.And(0 <= k, k < Nr, esc(k)))), r.status == s1))
+    v.prove("user_heartbeat_result_is_exit_status_or_unchanged", z3.Or(s1 == st0, exit_status(s1)))
+    v.prove("particles_untouched", z3.And(*[parts.array(f) == old[f] for f in F]))
+    v.ground("only_indirect_call_is_r->heartbeat", set(called) <= {"r->heartbeat"}, str(called))
+
+
+@P.task("heartbeat.encounter", fn=HB)
+def _(v):
+    """status' = ENCOUNTER iff some pair b < a < N - N_var is closer than exit_min_distance -- also when a particle has
+    escaped in the same step (the encounter check runs second and overwrites ESCAPE)."""
+    r, rp, Nr, st0, dmax, dmin, esc, enc, called, parts = hb_setup(v)
+    v.assume(dmin != 0)
+    ENC = v.enumc("REB_STATUS_ENCOUNTER")
+    a, b, k = z3.Ints("a b k")
+    v.loop(HB, 0, invariant=lambda L: [("range", L.i >= 0)], variant=lambda L: Nr - L.i)
+    pre = {}
+
+    def outer(L):
+        cur, i = status_of(L, rp), L.i
+        s1 = pre["s1"] = L.eng.read(L.entry, Ptr(rp.obj, ("status",)))
+        return [("range", z3.And(i >= 0, i <= upto(Nr))),
+                ("found", z3.ForAll([a, b], z3.Implies(z3.And(0 <= b, b < a, a < i, enc(a, b)), cur == ENC))),
+                ("else_unchanged", z3.Or(cur == s1, z3.And(cur == ENC, z3.Exists([a, b], z3.And(0 <= b, b < a, a < i, enc(a, b))))))]
+
+    def inner(L):
+        cur, i, j = status_of(L, rp), L.i, L.j
+        s1 = pre["s1"]
+        seen = lambda a_, b_: z3.And(0 <= b_, b_ < a_, z3.Or(a_ < i, z3.And(a_ == i, b_ < j)))
+        return [("range", z3.And(j >= 0, j <= i, i >= 0, i < Nr)),
+                ("found", z3.ForAll([a, b], z3.Implies(z3.And(seen(a, b), enc(a, b)), cur == ENC))),
+                ("else_unchanged", z3.Or(cur == s1, z3.And(cur == ENC, z3.Exists([a, b], z3.And(seen(a, b), enc(a, b))))))]
+    v.loop(HB, 1, invariant=outer, variant=lambda L: Nr - L.i)
+    v.loop(HB, 2, invariant=inner, variant=lambda L: L.i - L.j)
+    v.call(HB, rp)
+    ja, jb = v.int("ja"), v.int("jb")
+    s1 = pre["s1"]
+    v.prove("some_pair_close_implies_ENCOUNTER", z3.Implies(z3.And(0 <= jb, jb < ja, ja < Nr, enc(ja, jb)), r.status == ENC))
+    v.prove("otherwise_status_kept", z3.Implies(z3.Not(z3.Exists([a, b], z3.And(0 <= b, b < a, a < Nr, enc(a, b)))), r.status == s1))
